@@ -11,34 +11,57 @@ import traceback
 from .env import ConcEnv, ReplayMismatch
 
 
-def main(path):
-    with open(path) as f:
-        rec = json.load(f)
-    mod = __import__(rec['module'], fromlist=['x'])
-    if hasattr(mod, 'setup_concrete'):
-        mod.setup_concrete()
-    env = ConcEnv(rec['values'], rec['choices'], tol=rec.get('tol', 1e-6))
+def _matcher(mod):
+    return getattr(mod, 'signature_matches', lambda recorded, observed: recorded == observed)
+
+
+def attempt(mod, rec, values):
+    match = _matcher(mod)
+    env = ConcEnv(values, rec['choices'], tol=rec.get('tol', 1e-6))
     buf = io.StringIO()
     try:
         with contextlib.redirect_stdout(buf):
             mod.prog(env, rec['case'])
     except ReplayMismatch as ex:
         # the recorded path ends where the violated claim was (later choices were never drawn): fine if it failed
-        if rec['signature'] not in [f['signature'] for f in env.failed]:
-            print("NOT-REPRODUCED (replay left the recorded path: %s)" % ex)
-            return 0
+        if not any(match(rec['signature'], f['signature']) for f in env.failed):
+            return None, "replay left the recorded path: %s" % ex
     except Exception:
-        print("NOT-REPRODUCED (exception in concrete run)\n" + traceback.format_exc())
-        return 2
-    sigs = [f['signature'] for f in env.failed]
-    if rec['signature'] in sigs:
-        f = [f for f in env.failed if f['signature'] == rec['signature']][0]
-        print("REPRODUCED property=%s signature=%s" % (rec['property'], rec['signature']))
-        print("  what: %s" % f['what'])
-        print("  detail: %s" % json.dumps(f.get('detail', {}), default=str)[:1500])
-        print("  inputs: %s" % json.dumps(rec['values'])[:1500])
-        return 1
-    print("NOT-REPRODUCED (claims evaluated: %d, failed with other signatures: %s)" % (env.claims, sigs[:5]))
+        if not any(match(rec['signature'], f['signature']) for f in env.failed):
+            return None, "exception in concrete run\n" + traceback.format_exc()
+    hits = [f for f in env.failed if match(rec['signature'], f['signature'])]
+    if hits:
+        return hits[0], None
+    return None, "claims evaluated: %d, failed with other signatures: %s" % (env.claims,
+                                                                             [f['signature'] for f in env.failed][:5])
+
+
+def main(path):
+    with open(path) as f:
+        rec = json.load(f)
+    mod = __import__(rec['module'], fromlist=['x'])
+    if hasattr(mod, 'setup_concrete'):
+        mod.setup_concrete()
+    # 1st attempt: the solver's counter-model.  Further attempts: the same structural choices with the harness's
+    # default input values (a counterexample that is structural reproduces for generic parameter values; the
+    # counter-model's own values may describe an SDP that the real numeric solver cannot solve).
+    candidates = [("counter-model", rec['values'])]
+    if hasattr(mod, 'default_values'):
+        for i, dv in enumerate(mod.default_values(rec['case'])):
+            v = dict(rec['values'])
+            v.update(dv)
+            candidates.append(("default-inputs-%d" % i, v))
+    notes = []
+    for name, values in candidates:
+        hit, note = attempt(mod, rec, values)
+        if hit is not None:
+            print("REPRODUCED property=%s signature=%s (%s)" % (rec['property'], rec['signature'], name))
+            print("  what: %s" % hit['what'])
+            print("  detail: %s" % json.dumps(hit.get('detail', {}), default=str)[:1500])
+            print("  inputs: %s" % json.dumps({k: v for k, v in values.items() if not k.startswith('x') or '.' not in k})[:1500])
+            return 1
+        notes.append("%s: %s" % (name, note))
+    print("NOT-REPRODUCED\n  " + "\n  ".join(notes))
     return 0
 
 
